@@ -97,3 +97,12 @@ def zoo_case(rng, fam=None, c=lambda rng: rng.randrange(-30, 31), e=lambda rng: 
     if dotted and fam == 'rect' and rng.random() < 0.35:
         st += ' 1'
     return fam + ' ' + g + ' ' + st
+
+
+def axis_line_cases():
+    """directed stratum: axis-parallel and diagonal lines in both directions x stroke widths 1..8 (zoo syntax, no suite name)"""
+    out = []
+    for (dx, dy) in [(6, 0), (-6, 0), (0, 5), (0, -5), (5, 5), (-5, 5), (5, -5), (-5, -5), (0, 0)]:
+        for w in range(1, 9):
+            out.append(J('line', 12, 12, 12 + dx, 12 + dy, 'S', 0, 1, w, 1))
+    return out
